@@ -12,3 +12,4 @@ for p in "$@"; do
   echo "MUTANT $(basename $(dirname $patch))/$(basename $(dirname $(dirname $(dirname $patch)))) prop=$p exit=$rc violations=$v $cls"
 done
 git checkout -q -- .
+git -C /verif checkout -q -- evidence replays 2>/dev/null; git -C /verif clean -fdq replays
